@@ -43,6 +43,7 @@ func runNumber(e *env, raw json.RawMessage, rec map[string]any) {
 	rec["rt"] = e.eval(rt)
 	rec["rteq"] = e.eval(rt + " = " + l)
 	rec["out"] = rec["lit"]
+	rec["calls"] = 3
 }
 
 // ---------------------------------------------------------------- lit-temporal
@@ -67,4 +68,5 @@ func runTemporal(e *env, raw json.RawMessage, rec map[string]any) {
 	rec["eqT"] = e.eval(l + " = " + lib.FromCodePoints(c.CanonT))
 	rec["eqR"] = e.eval(l + " = " + lib.FromCodePoints(c.CanonR))
 	rec["out"] = rec["lit"]
+	rec["calls"] = 5
 }
